@@ -1,4 +1,4 @@
-package rpc
+package text
 
 import "sync"
 
